@@ -196,7 +196,9 @@ NoAtt == [n |-> 0, lastT |-> 0, lastOutcome |-> "none", done |-> FALSE, logged |
 Dead(ag) == ag \in DOMAIN cancd.dead
 LiveOf(gk) == {x \in DOMAIN fl : fl[x].gk = gk}
 
-FlushBegin(ag, gk, as) ==
+\* tick: the timer instant the pipeline uses as the flush time (aggrGroup.run: "the only reliable
+\* point of time reference"); it precedes now when the dispatcher was still starting up
+FlushBegin(ag, gk, as, tick) ==
   LET names == NamesOf(as)
       bad ==
         \* C06: one group per notification, all of its known firing alerts, latest version (C14)
@@ -215,6 +217,7 @@ FlushBegin(ag, gk, as) ==
         \cup (IF names # {} /\ (\A a \in names \cap Alerts : InhibitedAt(a, now)) /\ gk \in DOMAIN cancd.mby
                    /\ cancd.mby[gk].known /\ cancd.mby[gk].cur # MutedByAt(now)
                 THEN {"DRIFT_muted_state_not_refreshed_when_all_alerts_inhibited"} ELSE {})
+        \cup (IF TimeMuted(tick) # TimeMuted(now) THEN {"DRIFT_flush_gated_at_timer_instant_not_at_flush_instant"} ELSE {})
         \* C06: a (re-)created group waits group_wait before its first flush, unless it holds an
         \* alert that started longer ago than that
         \cup (IF ag \notin cancd.seen /\ names # {} /\ gk \in DOMAIN cancd.ing /\ cancd.ing[gk] + cfg.gw > now
@@ -224,7 +227,7 @@ FlushBegin(ag, gk, as) ==
                        /\ UNCHANGED <<now, cfg, ver, sil, last, brk, fl, elig>>
      ELSE
      /\ fl' = Put(fl, ag, [gk |-> gk, t |-> now, to |-> Timeout, alerts |-> as, att |-> [i \in Integs |-> NoAtt],
-                            tmust |-> TimeMuted(now), tmay |-> TimeMuted(now),
+                            tmust |-> TimeMuted(tick) /\ TimeMuted(now), tmay |-> TimeMuted(tick) \/ TimeMuted(now),
                             muted |-> {a \in names \cap Alerts : MutedAt(a, now)},
                             inhibited |-> {a \in names \cap Alerts : InhibitedAt(a, now)},
                             prevF |-> [i \in Integs |-> IF <<gk, i>> \in DOMAIN last THEN last[<<gk, i>>].firing ELSE {}]])
@@ -235,8 +238,9 @@ FlushBegin(ag, gk, as) ==
                                             prev == IF gk \in DOMAIN @ THEN @[gk] ELSE [cur |-> {}, prev |-> {}, t |-> now, known |-> FALSE, stale |-> FALSE]
                                         IN \* the time stages run after the inhibition stage: they are skipped
                                            \* when that one leaves nothing (the marker keeps its old value)
-                                           IF allInh THEN Put(@, gk, [prev EXCEPT !.stale = prev.known /\ prev.cur # MutedByAt(now)])
-                                           ELSE Put(@, gk, [cur |-> MutedByAt(now), prev |-> prev.cur, t |-> now, known |-> TRUE, stale |-> FALSE])]
+                                           IF allInh THEN Put(@, gk, [prev EXCEPT !.stale = prev.known /\ prev.cur # MutedByAt(tick)])
+                                           ELSE Put(@, gk, [cur |-> MutedByAt(tick), prev |-> prev.cur, t |-> now,
+                                                            known |-> MutedByAt(tick) = MutedByAt(now), stale |-> FALSE])]
      /\ brk' = [k \in DOMAIN brk |->
                   brk[k] \/ (k[1] = gk /\ ~\E a \in FiringOf(as) : ~SuppressedAt(a, now))]
      /\ chk' = bad
